@@ -6,6 +6,7 @@
   The tie to src/Numerics.cpp is the correspondence run.
 -/
 import LpProofs.C02.Lemmas
+import LpProofs.C02.Frexp
 import LpProofs.C02.Sqrt
 namespace Lp.C02
 
@@ -334,11 +335,23 @@ theorem findRoot_linear_exact (sq : Rat → Rat) (hsq : ∀ t : Rat, sq (t * t) 
     rintro h; rw [h] at hsc; nlinarith [mul_self_nonneg (m * hi + q)]
   -- the first iterate
   have hx4 : ridderX4 sq id lo (m * lo + q) (m * hi + q) ((lo + hi) / 2) (m * ((lo + hi) / 2) + q) = -q / m := by
-    unfold ridderX4
-    simp only [id]
     have hD : (m * ((lo + hi) / 2) + q) * (m * ((lo + hi) / 2) + q) - (m * lo + q) * (m * hi + q)
         = ((m * (lo - hi)) / 2) * ((m * (lo - hi)) / 2) := by ring
     have hd : (m * lo + q) - (m * hi + q) = m * (lo - hi) := by ring
+    have hdne0 : m * (lo - hi) / 2 ≠ 0 := by
+      have := mul_ne_zero hm (sub_ne_zero.mpr hne)
+      intro h0; apply this; linarith
+    -- the scaling by a power of two does not change the iterate (ridder_scale_invariant)
+    have hc := ridderScale_pos (m * lo + q) (m * hi + q) (m * ((lo + hi) / 2) + q)
+    rw [ridder_scale_invariant sq _ _ _ _ _ (by rw [hD, hsq]; exact abs_pos.mpr hdne0)
+      (by
+        rw [hD]
+        have : ridderScale (m * lo + q) (m * hi + q) (m * ((lo + hi) / 2) + q) *
+            ridderScale (m * lo + q) (m * hi + q) (m * ((lo + hi) / 2) + q) *
+            (m * (lo - hi) / 2 * (m * (lo - hi) / 2))
+            = (ridderScale (m * lo + q) (m * hi + q) (m * ((lo + hi) / 2) + q) * (m * (lo - hi) / 2)) *
+              (ridderScale (m * lo + q) (m * hi + q) (m * ((lo + hi) / 2) + q) * (m * (lo - hi) / 2)) := by ring
+        rw [this, hsq, hsq, abs_mul, abs_of_pos hc])]
     rw [hD, hsq, hd]
     have hdne : m * (lo - hi) ≠ 0 := mul_ne_zero hm (sub_ne_zero.mpr hne)
     rcases lt_or_gt_of_ne hdne with hneg | hpos
